@@ -20,11 +20,11 @@
        tc_annotations_typed are THEOREMS for the agreement teq_rt (identity or bisimilarity of the
        unfoldings, spec/TypEq.v): whatever the typechecker model returns for a closed program is
        typed in the run-time judgement, all 14 forms (proofs/RtTcSound.v, RtTcSoundTop.v, RtTcBisim.v).
-       Premises left, per program: prog_syn_ok p and rt_syn_ok p (two computable conditions on the
+       Premises left, per program: prog_syn_ok p and raw_ok p (two computable conditions on the
        parsed program — types and names are what the parser and expansion produce — evaluated on
        every program by the check module) and Topo on the reachable configurations;
        C01_safety_parsed_partial: for a program that comes out of parse_string, prog_syn_ok is a
-       theorem (proofs/ParseSynOk.v) and only rt_syn_ok is left of the two.
+       theorem (proofs/ParseSynOk.v) and only raw_ok is left of the two.
    NOT proved: the non-polarized mode (`safety_statement` quantifies over the three modes), and the
    premise topo_runs / topo_reachable (tested by proofs/TopoCheck.v on every suite run). *)
 From stdpp Require Import gmap strings.
@@ -114,18 +114,18 @@ Theorem C01_teq_rt_laws : forall D, teq_laws D (teq_rt D).
 Proof. exact teq_rt_laws. Qed.
 
 Theorem C01_tc_annotations_typed : forall p p',
-  typecheck p = Accept p' -> prog_syn_ok p = true -> rt_syn_ok p = true -> p_assumed p' = [] ->
+  typecheck p = Accept p' -> prog_syn_ok p = true -> raw_ok p = true -> p_assumed p' = [] ->
   static_typed (teq_rt (p_types p')) p'.
 Proof. exact tc_annotations_typed_rt. Qed.
 
 Theorem C01_initial_typed_tc : forall p p',
-  typecheck p = Accept p' -> in_fragment p' -> prog_syn_ok p = true -> rt_syn_ok p = true ->
+  typecheck p = Accept p' -> in_fragment p' -> prog_syn_ok p = true -> raw_ok p = true ->
   cfg_typed (p_types p') (p_funs p') (teq_rt (p_types p')) (init_delta p') (init_config p').
 Proof. exact initial_typed_tc. Qed.
 
 (* C01 without teq_ok and tc_annotations_typed *)
 Theorem C01_safety_tc_partial : forall p p' md,
-  typecheck p = Accept p' -> in_fragment p' -> prog_syn_ok p = true -> rt_syn_ok p = true ->
+  typecheck p = Accept p' -> in_fragment p' -> prog_syn_ok p = true -> raw_ok p = true ->
   (* topo_runs *)
   (forall md c, is_np md = false -> reachable (p_types p') (p_funs p') md (init_config p') c -> Topo c) ->
   is_np md = false ->
@@ -135,7 +135,7 @@ Proof. exact safety_tc_partial. Qed.
 
 (* for programs that come out of the parser prog_syn_ok is a theorem (proofs/ParseSynOk.v) *)
 Theorem C01_safety_parsed_partial : forall txt p p' md,
-  parse_string txt = POk p -> typecheck p = Accept p' -> in_fragment p' -> rt_syn_ok p = true ->
+  parse_string txt = POk p -> typecheck p = Accept p' -> in_fragment p' -> raw_ok p = true ->
   (forall md c, is_np md = false -> reachable (p_types p') (p_funs p') md (init_config p') c -> Topo c) ->
   is_np md = false ->
   forall fuel pick c who e,
@@ -145,7 +145,7 @@ Proof. exact safety_parsed_partial. Qed.
 (* the two computable premises as the check module evaluates them on every program of the suite *)
 Theorem C01_syn_premises_sound : forall txt, syn_premises_text txt = SY_ok ->
   exists p p', parse_string txt = POk p /\ typecheck p = Accept p' /\ in_fragment p' /\
-               prog_syn_ok p = true /\ rt_syn_ok p = true /\
+               prog_syn_ok p = true /\ raw_ok p = true /\
                static_typed (teq_rt (p_types p')) p'.
 Proof. exact syn_premises_sound. Qed.
 
